@@ -298,6 +298,7 @@ def real_run(wk, mx, jit, mode, nreq, seed, bind="tcp"):
             os.kill(s.pid, signal.SIGSTOP)
             try:
                 for i in range(nreq):
+                    time.sleep(0.4)              # (a worker that has just answered its last request exits within milliseconds)
                     if all(rp.proc_state(p) in (None, "Z") for p in initial):
                         break
                     one("/pid")
